@@ -201,6 +201,8 @@ VARIANTS = [
     # ---------------- C17
     ("B-17a", "B", "C17", SIMR, "        if self.result_type == \"probability_amplitude\":\n            raise ValueError(\n                \"Threshold mapping cannot be applied to probability \"\n                \"amplitudes.\"\n            )\n", ""),
     ("B-17m", "B", "C17", SAMR, "        mapped_result: dict[State, float] = {}\n        for out_state, val in self.items():\n            if invert:\n                new_s = State([1 - (s % 2) for s in out_state])\n            else:\n                new_s = State([s % 2 for s in out_state])\n            if new_s in mapped_result:\n                mapped_result[new_s] += val\n            else:\n                mapped_result[new_s] = val\n", "        mapped_result = {State([(1 - s % 2) if invert else s % 2 for s in out_state]): val for out_state, val in self.items()}\n"),
+    ("B-Z1", "B", "C03", L + "sdk/circuit/compiler.py", "        if output_mode is None:\n            output_mode = input_mode\n", "        output_mode = output_mode or input_mode\n"),
+    ("B-Z2", "B", "C14", L + "interferometers/error_model.py", "                if seed is not None:\n                    seed = rng.integers(2**31 - 1)", "                if seed:\n                    seed = rng.integers(2**31 - 1)"),
     ("B-17b", "B", "C17", SIMR, "                    array[i, j] = mapped_result[in_state][out_state]", "                    array[j, i] = mapped_result[in_state][out_state]"),
     ("B-17c", "B", "C17", SIMR, "            outputs=list(unique_outputs),", "            outputs=sorted(unique_outputs, key=str),"),
     ("B-G9", "B", "C17", SIMR, "                    new_s = State([s % 2 for s in out_state])\n                if new_s in mapped_result[in_state]:\n                    mapped_result[in_state][new_s] += val\n                else:\n                    mapped_result[in_state][new_s] = val", "                    new_s = State([s % 2 for s in out_state])\n                mapped_result[in_state][new_s] = val"),
